@@ -34,7 +34,8 @@ ONES = (1 << 56) - 1
 
 def carrier(mb, k=0, df=None, ac13=0x1838):
     d = df if df is not None else 20 + k % 2
-    h14 = [0, 0x3FFF, 0x1555][k % 3]
+    # the 14 header bits between DF and the altitude / identity code: FS (3 bits, every value), DR, UM
+    h14 = [0, 0x3FFF, 0x1555, 1 << 11, 3 << 11, (4 << 11) | 0x2AA, (5 << 11) | 0x7FF, 6 << 11, (2 << 11) | 0x400, (1 << 11) | 0x155, (3 << 11) | 0x7FF][k % 11]
     return vary_case(F.long_ap(d, (h14 << 13) | ac13, mb, [0x406B90, 0xABCDEF, 0xFFFFFF][k % 3]), k // 3)
 
 
@@ -283,6 +284,7 @@ def w_gate(_):
     # 51000 / 66000 / 70000 ft are only expressible in the 100-ft Gillham code (the 25-ft code ends at 50175 ft); the
     # last two lie above 20 km, where the atmosphere model is still isothermal (the real ISA warms by 1 K/km there:
     # less than 1 kt of IAS at these Mach numbers, far inside the gate margins used here)
+    kk = 0
     for alt in (0, 5000, 20000, 35000, 41000, 51000, 66000, 70000):
         ac13 = AL.q1_encode((alt + 1000) // 25) if alt <= 50175 else AL.gillham_encode(alt)
         for mraw in range(40, 251, 15):
@@ -293,7 +295,8 @@ def w_gate(_):
                 if not (0 < ias <= 500):
                     continue
                 mb = CF.bds60(ias=(1, 0, ias), mach=(1, 0, mraw))
-                msg = carrier(mb, 0, df=20, ac13=ac13)
+                kk += 1
+                msg = carrier(mb, kk, df=20, ac13=ac13)
                 acc.n += 1
                 s = judge("gate60", (msg, expect))
                 if s:
@@ -429,7 +432,7 @@ def run(ctx):
     neither = amb[:40]
     ctx.cov["ambiguous_50_60_payloads"] = len(both)
     tasks += [("x", c) for c in chunks((both if ctx.thorough else both[:600]) + neither, 40)]
-    ctx.pmap(w_any, tasks)
+    ctx.pmap(w_any, tasks, ambient=True)
     ctx.samples.append({"BDS50": carrier(CF.bds50(), 0, df=20), "infer": bds.infer(carrier(CF.bds50(), 0, df=20))})
 
 
